@@ -282,6 +282,8 @@ SHAPE_PINS = [
      r'for \(a = 0; a < 8; a\+\+\) \{ if \(supla_relay_cfg\[a\]\.gpio_id == port\) \{ if \(supla_relay_cfg\[a\]\.flags & 0x02 \|\| supla_relay_cfg\[a\]\.flags & 0x04\) state = &supla_esp_state\.Relay\[a\];', 1),
     ('src/user/supla_esp_countdown_timer.c', 'supla_esp_countdown_timer_countdown', [],
      r'if \(i->channel_number < 8\) \{ supla_esp_state\.Time2Left\[i->channel_number\] = i->time_left_ms; \}', 1),
+    ('src/user/supla_esp_input.c', 'supla_esp_input_set_active_triggers', [],
+     r'input_cfg->active_triggers = input_cfg->action_trigger_cap & active_triggers;', 1),
     ('src/user/supla_esp_countdown_timer.c', 'supla_esp_countdown_timer_cb', [],
      r'if \(i->channel_number < 8\) \{ supla_esp_state\.Time2Left\[i->channel_number\] = i->time_left_ms; \}', 1),
 ]
@@ -392,6 +394,7 @@ G.GROUPS['C03Consts'] = dict(
         ('CC_HDR', _off('TSD_ChannelConfig', 'Config')), ('CC_CHANNEL', _off('TSD_ChannelConfig', 'ChannelNumber')),
         ('CC_FUNC', _off('TSD_ChannelConfig', 'Func')), ('CC_TYPE', _off('TSD_ChannelConfig', 'ConfigType')),
         ('CC_SIZE', _off('TSD_ChannelConfig', 'ConfigSize')),
+        ('ATC_ACTIONS', _off('TChannelConfig_ActionTrigger', 'ActiveActions')),
         ('RSC_SIZE', 'sizeof(TChannelConfig_RollerShutter)'), ('RSC_MOTOR_UD', _off('TChannelConfig_RollerShutter', 'MotorUpsideDown')),
         ('RSC_BUTTONS_UD', _off('TChannelConfig_RollerShutter', 'ButtonsUpsideDown')), ('RSC_MARGIN', _off('TChannelConfig_RollerShutter', 'TimeMargin')),
         ('FBC_SIZE', 'sizeof(TChannelConfig_FacadeBlind)'), ('FBC_MOTOR_UD', _off('TChannelConfig_FacadeBlind', 'MotorUpsideDown')),
